@@ -142,6 +142,33 @@ func c02Core(c *Check, P string, r *RouterRoles) {
 		}
 		c.Report(!bad, P+".O3", "NO-ACK-AFTER-NACK", D, n.Pos(), fmt.Sprintf("nack#%d", i), "no Ack is reachable after this Nack")
 	}
+	// a message whose chain succeeded and whose outputs were accepted is Acked: Nack needs a failure
+	_, chainFail := NilEdges(D, chainErr)
+	_, pubFailE := NilEdges(D, pubErr)
+	failEdges := append(append([]Edge{}, chainFail...), pubFailE...)
+	for _, t := range Tests(D) {
+		if t.Y == nil || !IsNilConst(t.Y) || (t.Op != token.EQL && t.Op != token.NEQ) {
+			continue
+		}
+		if mergedNilGuard(D, t.X, pubErr, noOutputs) {
+			if t.Op == token.EQL {
+				failEdges = append(failEdges, t.False)
+			} else {
+				failEdges = append(failEdges, t.True)
+			}
+		}
+	}
+	// "outputs, but no publisher" decided inline is a failure as well
+	noPub, _ := NilEdges(D, func(x ssa.Value) bool {
+		return AllOrigins(x, func(o ssa.Value) bool { f := LoadedField(o); return f != nil && f.Type().String() == msgPkg+".Publisher" })
+	})
+	failEdges = append(failEdges, noPub...)
+	for i, n := range nacks {
+		if n.Parent() != D {
+			continue // Nack inside a helper: the helper call is what is guarded
+		}
+		c.Report(GuardedBy(D, n, failEdges), P+".O3", "NACK-ONLY-ON-FAILURE", D, n.Pos(), fmt.Sprintf("nack#%d", i), "outside the recover closure a Nack happens only on the edge of a chain error or of a publish error (no other condition — message context, shutdown — turns a handled message into a Nack and drops its outputs)")
+	}
 	for i, a := range acks {
 		after := ReachAfter(a, nil)
 		bad := false
@@ -511,6 +538,9 @@ func c02HelperResult(c *Check, id string, r *RouterRoles, pubErrCalls []ssa.Call
 					ok := hp(v) || IsGlobalLoad(v, msgPkg, "ErrOutputInNoPublisherHandler") || wrapsOneOf(v, hp)
 					c.Report(ok, id, "HELPER-ERROR-KEPT", H, ret.Pos(), k, "a non-nil result is the Publish error (possibly wrapped) or ErrOutputInNoPublisherHandler")
 					if IsGlobalLoad(v, msgPkg, "ErrOutputInNoPublisherHandler") {
+						pubNil, _ := NilEdges(H, func(x ssa.Value) bool { return AllOrigins(x, exportedOrPrivateField("publisher", H)) })
+						c.Report(len(pubNil) > 0 && (GuardedBy(H, ret, pubNil) || nilOnlyOnEdges(ret, v, pubNil)), id, "NO-PUBLISHER-ERROR-ONLY-WITHOUT-PUBLISHER", H, ret.Pos(), k,
+							"the 'outputs in a no-publisher handler' error is raised only on the edge where the handler has no publisher (not for an empty publish topic or any other configuration)")
 						c.Report(len(nonEmpty) > 0 && (GuardedBy(H, ret, nonEmpty) || nilOnlyOnEdges(ret, v, nonEmpty)), id, "NO-PUBLISHER-ERROR-ONLY-WITH-OUTPUTS", H, ret.Pos(), k,
 							"the 'outputs in a no-publisher handler' error is raised only when the handler returned messages (a handler that returns none succeeds, publisher or not)")
 					}
@@ -521,6 +551,13 @@ func c02HelperResult(c *Check, id string, r *RouterRoles, pubErrCalls []ssa.Call
 		for _, pb := range pubs {
 			_, isGo := pb.(*ssa.Go)
 			c.Report(!isGo, id, "PUBLISH-SYNCHRONOUS", H, pb.Pos(), "Publish invoke", "Publish is called synchronously (its result is the helper's result)")
+		}
+		// every output is offered to the publisher: Publish gets the chain's outputs as they are, once
+		direct := CallsTo(H, nPublish)
+		c.Floor(id, "Publisher.Publish call in the publish helper", len(direct), 1)
+		for i, pb := range direct {
+			okAll := len(pb.Common().Args) >= 2 && isOut(pb.Common().Args[len(pb.Common().Args)-1]) && !InLoop(pb) && len(direct) == 1
+			c.Report(okAll, id, "PUBLISH-ALL-OUTPUTS", H, pb.Pos(), fmt.Sprintf("Publish#%d", i), "the slice the chain returned is handed to Publish unchanged, in one call (no output is filtered out, de-duplicated or left in an unpublished rest while the input is Acked)")
 		}
 	}
 
@@ -750,4 +787,12 @@ func c02RecoverKeepsFailure(c *Check, id string, r *RouterRoles) {
 		})
 	}
 	c.Note(id, "RECOVER-KEEPS-FAILURE/scan", r.Dispatch, r.Dispatch.Pos(), "package message", fmt.Sprintf("%d deferred recover closures in error-returning functions of package message examined", n))
+}
+
+// exportedOrPrivateField: a load of the field of H's receiver type that holds a message.Publisher.
+func exportedOrPrivateField(_ string, H *ssa.Function) func(ssa.Value) bool {
+	return func(v ssa.Value) bool {
+		f := LoadedField(v)
+		return f != nil && f.Type().String() == msgPkg+".Publisher"
+	}
 }
